@@ -276,20 +276,55 @@ def check_weak_and_sinks(ctx, R):
     # ---- STRONG-SINK
     sink = M.cls('streamz.sinks', 'Sink')
     sinit = sink.methods.get('__init__')
-    reg = sinit is not None and any(isinstance(n, ast.Call) and isinstance(n.func, ast.Attribute) and n.func.attr == 'add'
-                                    and src(n.func.value) == '_global_sinks' and n.args and src(n.args[0]) == 'self'
-                                    for n in own_nodes(sinit.node))
     gs = sink.module.tree
     strong = any(isinstance(n, ast.Assign) and any(isinstance(t, ast.Name) and t.id == '_global_sinks' for t in n.targets)
                  and isinstance(n.value, ast.Call) and src(n.value.func) == 'set' for n in gs.body)
+
+    def registry_calls(fn, methods):
+        """per normal path: does it call _global_sinks.<m>(self) (directly or inside a spliced private helper)?"""
+        out = []
+        for st, status in ctx.paths(fn, sink, no_inline=('__init__', 'destroy')):
+            if is_failure(st.events, status):
+                continue
+            hit = False
+            stack = []
+            for e in st.events:
+                if e.kind == 'ENTER':
+                    stack.append(e)
+                elif e.kind == 'LEAVE' and stack:
+                    stack.pop()
+                elif e.kind == 'CALL' and e.c in methods and isinstance(e.x['node'].func, ast.Attribute) \
+                        and src(e.x['node'].func.value) == '_global_sinks' and e.x['node'].args:
+                    a = e.x['node'].args[0]
+                    k = len(stack)
+                    # map a helper's parameter back to the caller's argument
+                    while k > 0 and isinstance(a, ast.Name) and a.id != 'self':
+                        en = stack[k - 1]
+                        prm = en.x['callee'].params()[en.x.get('offset', 1):]
+                        call = en.x.get('call')
+                        if call is None or a.id not in prm:
+                            break
+                        idx = prm.index(a.id)
+                        kw = next((kk.value for kk in call.keywords if kk.arg == a.id), None)
+                        a = call.args[idx] if idx < len(call.args) else kw
+                        k -= 1
+                    if isinstance(a, ast.Name) and a.id == 'self' and k == 0:
+                        hit = True
+            out.append((hit, st.events))
+        return out
+
+    regs = registry_calls(sinit, ('add',)) if sinit is not None else []
+    reg = bool(regs) and all(h for h, _ in regs)
     R.ob('STRONG-SINK', 'streamz.sinks.Sink.__init__', '_global_sinks', reg and strong,
          'Sink.__init__ does not register the sink in the strong module-level set _global_sinks',
-         ctx.where(sinit, sinit.node.lineno) if sinit else None)
+         ctx.where(sinit, sinit.node.lineno) if sinit else None,
+         fmt_path(next(ev for h, ev in regs if not h)) if regs and not reg else None, len(regs))
     sd = sink.methods.get('destroy')
-    unreg = sd is not None and any(isinstance(n, ast.Call) and isinstance(n.func, ast.Attribute) and n.func.attr in ('remove', 'discard')
-                                   and src(n.func.value) == '_global_sinks' for n in own_nodes(sd.node))
+    unregs = registry_calls(sd, ('remove', 'discard')) if sd is not None else []
+    unreg = bool(unregs) and all(h for h, _ in unregs)
     R.ob('STRONG-SINK', 'streamz.sinks.Sink.destroy', '_global_sinks', unreg,
-         'Sink.destroy does not unregister the sink: a destroyed sink stays alive', ctx.where(sd, sd.node.lineno) if sd else None)
+         'Sink.destroy does not unregister the sink: a destroyed sink stays alive', ctx.where(sd, sd.node.lineno) if sd else None,
+         fmt_path(next(ev for h, ev in unregs if not h)) if unregs and not unreg else None, len(unregs))
     sink_init = sink.methods['__init__']
     for c in M.subclasses(sink):
         if c is sink:
@@ -366,8 +401,14 @@ def check_destroy_super(ctx, R, classes):
              'a path of this destroy() override does not reach Stream.destroy exactly once: the node stays linked',
              ctx.where(fn, fn.node.lineno), fmt_path(bad) if bad else None, n)
     # Stream.destroy itself unlinks both ends for every upstream (BOTH-ENDS covers the pairing); it must iterate a copy
-    loops = [l for l in own_nodes(base.node) if isinstance(l, ast.For)]
-    ok = any(isinstance(l.iter, ast.Call) and src(l.iter.func) in ('list', 'tuple') for l in loops)
-    R.ob('DESTROY-SUPER', ctx.construct(base), 'iterates-copy', ok,
+    # (on the event paths: no iteration of the loop that unlinks runs over self.upstreams itself or a local alias of it)
+    bad, n = None, 0
+    for st, status in ctx.paths(base, M.stream):
+        for e in st.events:
+            if e.kind == 'ITER' and e.depth == 0:
+                n += 1
+                if (e.x or {}).get('iter_field') == 'upstreams':
+                    bad = st.events
+    R.ob('DESTROY-SUPER', ctx.construct(base), 'iterates-copy', bad is None and n > 0,
          'Stream.destroy mutates self.upstreams while iterating it (every second upstream would stay linked)',
-         ctx.where(base, base.node.lineno))
+         ctx.where(base, base.node.lineno), fmt_path(bad) if bad else None, n)
